@@ -177,14 +177,39 @@ example : ∃ g : SpGeom, g.isVbraceOpen = false ∧ g.nlCount = 0 ∧ origGap g
   ⟨{ column := 5, len := 3, nlCount := 0, origColEnd := 8, nextOrigCol := 10, isVbraceOpen := false, prevOrigCol := 0 },
    rfl, rfl, by decide⟩
 
-/-- after a virtual open brace with IGNORE and no usable input gap, `next` is put back at its input column (Issue #1854) -/
+/-- after a virtual open brace with IGNORE and no usable input gap, `next` is put back at its input column (Issue #1854)
+    when that column lies to the right of the brace; otherwise it stays right behind the brace -/
 theorem C19_apply_ignore_vbrace (minSp : Nat) (g : SpGeom) (hv : g.isVbraceOpen = true)
     (h : ¬ (g.nextOrigCol ≥ g.origColEnd ∧ g.origColEnd ≠ 0)) :
-    applySwitch .ignore minSp g = g.nextOrigCol := by
-  simp only [applySwitch, hv, if_true]
+    applySwitch .ignore minSp g = max g.colAfter g.nextOrigCol := by
+  simp only [applySwitch, hv]
   split
   · simp_all
-  · rfl
+  · split <;> simp_all <;> omega
+
+/-- **columns never move to the left**: whatever the decision, the forced flag, `min_sp` and the geometry (virtual braces
+    included), `space_text()` puts `next` at or to the right of the end of `pc`.  This is what keeps the columns of a line
+    monotonic, which `reindent_line()` relies on when it subtracts the shift of the first token from every token of the line
+    (size_t arithmetic).  Fix f9c391f made it true; see `C19_old_moves_left_witness`. -/
+theorem C19_apply_never_left (av : IARF) (minSp : Nat) (g : SpGeom) :
+    applySwitch av minSp g ≥ g.colAfter := by
+  cases av <;> simp only [applySwitch]
+  · split
+    · omega
+    · split
+      · rename_i h; simp only [Bool.and_eq_true, decide_eq_true_eq] at h; omega
+      · omega
+  · split
+    · split <;> omega
+    · split <;> omega
+  · omega
+  · omega
+
+/-- before fix f9c391f: a token whose input column lies left of the virtual brace (lines joined by nl_remove_extra_newlines=2:
+    `  if(a)` / `b;`) was moved there: `b` at column 1 although the virtual brace sits at column 8 -/
+theorem C19_old_moves_left_witness :
+    let g : SpGeom := { column := 8, len := 0, nlCount := 0, origColEnd := 0, nextOrigCol := 1, isVbraceOpen := true, prevOrigCol := 7 }
+    applySwitchOld .ignore 1 g = 1 ∧ g.colAfter = 8 ∧ applySwitch .ignore 1 g = 8 := by decide
 
 /-- **forced_overrides_remove**: with PCF_FORCE_SPACE (the two tokens would lex differently when joined) every decision
     yields at least one column; Remove and Force yield exactly `max 1 min_sp` -/
@@ -225,6 +250,14 @@ theorem C19_trcmt_only_widens (t : TrCmt) (g : SpGeom) (column : Nat) (hr : t.re
     simp only [Bool.and_eq_true, decide_eq_true_eq] at h
     split <;> split <;> omega
   · omega
+
+/-- the same for the full applier when the trailing-comment adjustment is not in relative mode -/
+theorem C19_space_apply_never_left (av0 : IARF) (forced : Bool) (minSp : Nat) (g : SpGeom) (t : TrCmt) (hr : t.relative = false) :
+    spaceApply av0 forced minSp g t ≥ g.colAfter := by
+  have h1 := C19_apply_never_left (ensureForce forced av0) minSp g
+  have h2 := C19_trcmt_only_widens t g (applySwitch (ensureForce forced av0) minSp g) hr
+  simp only [spaceApply]
+  omega
 
 -- non-vacuity: concrete pairs
 example : gapOf .remove false 1 { column := 5, len := 3, nlCount := 0, origColEnd := 8, nextOrigCol := 10,
